@@ -473,6 +473,9 @@ func checkC03(c *Ctx, r *Report) {
 	// "every datagram the library transmits within an established session": whatever method a
 	// caller invokes on the session value is the session's own
 	checkSessionAPIOwnMethods(c, r)
+	// "for exactly the command the caller asked for": the commands the library builds itself
+	// (Close Session names the BMC's session ID) (shared with C06)
+	checkHelperRequests(c, r)
 	checkBufferViews(c, r, "buffer-views")
 
 	// ---- (4) layouts shared with C06
